@@ -252,7 +252,7 @@ func (m *TlvModel) GenReadFrom(buf *bytes.Buffer) error {
 	}{
 		Model:              m,
 		GenTlvNumberDecode: GenTlvNumberDecode,
-		IsCritical:         `((typ <= 31) || ((typ & 1) == 1))`,
+		IsCritical:         IsCriticalExpr,
 	})
 }
 
